@@ -1,5 +1,5 @@
 """C09 key canonicalisation: equivalent calls map to one key."""
-import functools
+import copy, functools
 from hypothesis import strategies as st
 from harness import cachehist as H, cachegen as G, values as V, sigs as S
 from harness.core import Discrepancy
@@ -66,6 +66,18 @@ def cases(draw, path):
         pkw = [[n, stable_spec(v, tol)] for n, v in pkw]
     rest = rest_sig(sig, nfix, pkw)
     b = draw(S.bindings(rest, vals))
+    # two arguments with EQUAL container values: one spelling passes the very same object for both, the other two distinct equal objects
+    alias = None
+    slots = [['named', i] for i in range(len(b.get('named', [])))] + [['xpos', i] for i in range(len(b.get('xpos', [])))] + \
+            [['kwonly', i] for i in range(len(b.get('kwonly', [])))] + [['xkw', i] for i in range(len(b.get('xkw', [])))]
+    if len(slots) >= 2 and draw(st.integers(0, 5)) == 0:
+        alias = draw(st.permutations(slots))[:2]
+        shared = draw(st.sampled_from([['t', [['i', 1], ['s', 'a']]], ['t', [['i', 0]]], ['t', [['t', [['i', 2]]], ['n']]]]))
+        for kind_, i_ in alias:
+            if kind_ == 'xpos':
+                b[kind_][i_] = copy.deepcopy(shared)
+            else:
+                b[kind_][i_][1] = copy.deepcopy(shared)
     others = draw(st.lists(S.bindings(rest, vals), max_size=3))
     # an ignore specification (by name, '*', '**') in effect: equivalent spellings must still share a key, also when the ignored argument is a
     # default that one spelling omits and the other spells out
@@ -81,11 +93,15 @@ def cases(draw, path):
         module = draw(st.sampled_from(['std', 'safe']))
     return {'sig': sig, 'kind': kind, 'nfix': nfix, 'fixed': [draw(vals) for _ in range(nfix)], 'pkw': pkw, 'binding': b, 'others': others,
             'form1': draw(st.integers(0, 255)), 'form2': draw(st.integers(0, 255)), 'keymap': km, 'path': path,
-            'module': module, 'algo': draw(st.sampled_from(['inf', 'lru', 'lfu', 'mru', 'rr'] + H.DISPATCHED)), 'tol': tol, 'deep': deep, 'ignore': ignore}
+            'module': module, 'algo': draw(st.sampled_from(['inf', 'lru', 'lfu', 'mru', 'rr'] + H.DISPATCHED)), 'tol': tol, 'deep': deep, 'ignore': ignore, 'alias': alias}
 
 
 def stable_spec(spec, tol):
     t = spec[0]
+    if t in 'SF' and len(spec[1]) > 1:
+        # deep rounding REBUILDS sets, which may change their iteration order (and so the text of repr-based keys): same root cause as D19
+        # (what the caller passes is rounded / rebuilt, defaults and partial presets are mixed in as they are); kept out of defaults and presets
+        return [t, [stable_spec(spec[1][0], tol)]]
     if t == 'f':
         return ['f', repr(round(float(spec[1]), tol))]
     if t in 'tlSF':
@@ -159,12 +175,22 @@ def _run_case(case):
     others = [S.spell_full(rest, ob, 0) for ob in case.get('others', [])]
     others = [(prefix + oa, ok) for oa, ok in others if 'w' not in ok or not any(n == 'w' for n, _ in case.get('pkw', []))]
     built = {}
+    built2 = built
+    if case.get('alias'):
+        (ka, ia), (kb, ib) = case['alias']
+        bd = case['binding']
+        sa = bd[ka][ia] if ka == 'xpos' else bd[ka][ia][1]
+        sb = bd[kb][ib] if kb == 'xpos' else bd[kb][ib][1]
+        obj = V.build(sa)
+        built, built2 = {id(sa): obj, id(sb): obj}, {}       # spelling 1: one object in both places; spelling 2: two equal objects
     a1, k1 = S.spell_full(rest, case['binding'], case['form1'], built)
-    a2, k2 = S.spell_full(rest, case['binding'], case['form2'], built)
+    a2, k2 = S.spell_full(rest, case['binding'], case['form2'], built2)
     a1, a2 = prefix + a1, prefix + a2
     b1, b2 = S.bound(oracle_fn, a1, k1), S.bound(oracle_fn, a2, k2)
     classes = ['path:' + case['path'], 'kind:' + case['kind'], 'others:%d' % len(others), 'partial_kw:%s' % bool(case.get('pkw')), 'keymap:%s%s' % (case['keymap']['cls'], '' if case['keymap']['flat'] else '-nonflat'),
                'typed:%s' % case['keymap']['typed']]
+    if case.get('alias'):
+        classes.append('aliased_arguments')
     if b1 is None or b2 is None or not S.bound_equal(b1, b2):
         # generator soundness: both spellings must be valid and bind identically
         return [Discrepancy('C09/harness/spellings-not-equivalent', '%r %r vs %r %r' % (a1, k1, a2, k2))], None, classes
@@ -277,13 +303,21 @@ def shape(sig):
     return (len(sig['req']), len(sig['opt']), bool(sig['varargs']), len(sig['kwreq']), len(sig['kwopt']), bool(sig['varkw']))
 
 
-REQUIRED_CLASSES = ['kind:partial_bound', 'ignore_in_effect', 'tol:0', 'tol:1', 'differs_beyond_kw_order', 'kw_order_differs', 'kind:method', 'kind:partial', 'path:call', 'path:keygen', 'path:_keygen', 'path:fkey']
+REQUIRED_CLASSES = ['aliased_arguments', 'kind:partial_bound', 'ignore_in_effect', 'tol:0', 'tol:1', 'differs_beyond_kw_order', 'kw_order_differs', 'kind:method', 'kind:partial', 'path:call', 'path:keygen', 'path:_keygen', 'path:fkey']
 
-EXCLUDED = {'float defaults that change under the rounding tolerance (finding D19, probed)': 'replaced by their rounded value'}
+EXCLUDED = {'float defaults that change under the rounding tolerance (finding D19, probed)': 'replaced by their rounded value',
+            'multi-element sets in partial presets under a tolerance (deep rounding rebuilds a passed set, changing its repr order; same root cause as D19)': 'cut to one element'}
 
 
 def _t_unstable_default(case, discr):
     return unstable_default(case)
 
 
-TRIGGERS = {'tol_unstable_default': _t_unstable_default}
+def _t_alias_pickled(case, discr):
+    """D25: keys produced by a real pickler (picklemap(serializer='pickle'|'dill'|dill), also as the base of a chain) record which argument
+    objects are IDENTICAL (pickle memo): f(p, p) and f(p, q) with q == p get different keys. Trigger = such a keymap + an aliased pair."""
+    km = case['keymap']
+    return bool(case.get('alias')) and km['cls'] == 'picklemap' and km['opt'] is not None
+
+
+TRIGGERS = {'tol_unstable_default': _t_unstable_default, 'aliased_arguments_pickled': _t_alias_pickled}
